@@ -27,7 +27,8 @@ Editors  == {"absolute", "shapes_to_paths", "expand_shorthand", "evenodd_to_nonz
 Mutators == {"apply_style_attributes", "resolve_use", "simplify", "clip_to_viewbox",
              "remove_unpainted_shapes", "remove_nonsvg_content", "remove_processing_instructions",
              "remove_anonymous_symbols", "remove_title_meta_desc", "set_attributes",
-             "remove_attributes", "resolve_nested_svgs", "topicosvg"}
+             "remove_attributes", "resolve_nested_svgs", "topicosvg",
+             "set_viewbox", "remove_viewbox"}    \* set_/remove_attributes aimed at the root's viewBox
 PopQueries   == {"shapes", "bounding_box"}
 FlushQueries == {"tostring", "toetree", "checkpicosvg"}
 PureQueries  == {"view_box", "tolerance", "xpath"}
